@@ -12,8 +12,8 @@ CHECKS = {
  "C03": ("proptest tape-driven generation of programs over a scripted result-dictating command; model-based oracle (abstract machine transcribed from the statement) comparing call log, on_error log, final variables and Ok/Err(line, source)",
          "Model-based generated search: every result kind, jumps with countdowns, duplicate/undefined labels, out-of-range lines, unknown commands, on_error configurations, text and file mode. Exploration level; shrinking gives minimal programs.",
          "Trusts the 150-line abstract machine; fuel hook turns non-termination into a deterministic mismatch.", "DESIGN.md section 3 C03"),
- "C06": ("exhaustive enumeration of all well-formed condition token sequences up to 11 (quick) / 14 (thorough) tokens plus proptest-generated longer ones; and-of-ors reference evaluator oracle through all four consumers; truthiness table sweep",
-         "Exhaustive generated search within the bound (30,541 / 601,647 sequences x 4 consumers) and random search beyond it, against an independent evaluator; truthiness spellings swept through not/if. Exploration level with an exhaustive sub-bound.",
+ "C06": ("exhaustive enumeration of all well-formed condition token sequences up to 11 (quick) / 15 (thorough) tokens plus proptest-generated longer ones; and-of-ors reference evaluator oracle through all four consumers; truthiness table sweep",
+         "Exhaustive generated search within the bound (30,541 sequences at 11 tokens, several millions at 15, x 4 consumers) and random search beyond it, against an independent evaluator; truthiness spellings swept through not/if. Exploration level with an exhaustive sub-bound.",
          "Trusts the 40-line reference evaluator and the ASCII-case-insensitive truthiness table; atom values never collide with command names or keywords.", "DESIGN.md section 3 C06"),
  "C08": ("proptest tape-driven arbitrary-text generation (syntax soup, hazard Unicode, long lines) with totality/shape invariants, plus planted single malformed lines in generated well-formed scripts with error-kind/line oracle",
          "Generated-input search: parse_text must return on every text and, when it accepts, yield one instruction per line with 1-based numbers; each documented malformation planted at a random line must be rejected with the matching kind and line, and the script must parse once that line is blanked. Exploration level.",
